@@ -341,7 +341,7 @@ func TestVerifC12(t *testing.T) {
 		res.RequireObs(k, 1)
 	}
 	res.RequireObs("literal_witnesses", 15)
-	res.RequireObs("reject_law_cross_cases", int64(nHand*500))
+	res.RequireObs("reject_law_cross_cases", int64(nHand*350)) // ~410 per base once the rotating thinning applies (bases >= 12)
 	res.RequireObs("reject_law_shapes", int64(nHand*80))
 	res.RequireObs("default_nat_unknown_applied:no-match-response", int64(nHand))
 	if strictPollResponseNAT {
@@ -351,7 +351,7 @@ func TestVerifC12(t *testing.T) {
 			res.RequireObs("rejected:"+nPollResp+":nat-outside-names"+suffix, int64(nHand))
 		}
 	}
-	res.RequireObs("reject_law_cases", int64(nHand*200))
+	res.RequireObs("reject_law_cases", int64(nHand*150)) // ~170 per thinned base
 	for _, name := range []string{nPollReq, nPollResp, nAnsReq, nAnsResp, nCliReq, nCliResp} {
 		res.RequireObs("totality_value:"+name, 1)
 		res.RequireObs("totality_error:"+name, 1)
